@@ -16,3 +16,11 @@ package packagevalidation
 //@   loop 1 invariant 0 <= idx && (len(errs) == 0 ==> validatorsFailed() == old(validatorsFailed()))
 //@   loop 1 invariant gomem_unchanged(alloc(pkg)) && (cap(errs) == 0 || (fresh(sarr(errs)) && allocated(sarr(errs))))
 //@   loop 1 invariant forall i int :: 0 <= i && i < len(errs) ==> errs[i] != nil
+
+//@ props C13
+// an object passes the phase-annotation validator only if its annotation is, character for character, the name of a
+// phase of the manifest (the phase collector looks the phase up by the raw annotation value and drops unknown names)
+//@ func package-operator.run/internal/packages/internal/packagevalidation.(*ObjectPhaseAnnotationValidator).validate
+//@   ensures [C13] result == nil && obj.Object != nil ==> (exists i int :: 0 <= i && i < len(manifest.Spec.Phases) && manifest.Spec.Phases[i].Name == ann(obj)["package-operator.run/phase"])
+//@   ensures [C13] result == nil && obj.Object != nil ==> annHas(obj)["package-operator.run/phase"]
+//@   loop 1 invariant 0 <= idx && gomem_unchanged()
